@@ -30,4 +30,16 @@ CLAIMS = {
         "note": "Trusted: Lean kernel (axioms propext, Classical.choice, Quot.sound); hand-written model (Model/Text.lean, Sq functions in Model/Basic.lean) tied to the code by exhaustive streams over the finite domains; Range<u8> is modelled.",
         "technique": "Lean 4: decide +kernel over Fin 256 / Fin 64, list case analysis, refinement by induction over operation sequences + exhaustive differential",
     },
+    "C08": {
+        "text": "Kernel-checked theorems rook_eq / bishop_eq: for every square and every one of the 2^64 occupancies the computed table index is below the table length and the lookup equals ray casting by stepping up to and including the first occupied square. Proof: per-square kernel evaluation over every subset of the magic mask of the tables regenerated from the source (128 obligations, 107648 subsets), lifted to all words by checkAll_sound (subset enumeration covers occ & mask) and slide_congr + mask-coverage (ray casting ignores squares outside the mask).",
+        "note": "Trusted: Lean kernel (axioms propext, Classical.choice, Quot.sound; no native_decide); tools/translate.py for the tables; the index expression is hand-modelled in BitVec 64 and tied to the code by the exhaustive accessor sweep of the same subsets plus random full occupancies.",
+        "technique": "Lean 4: decide +kernel over all mask subsets per square on translated tables + inductive lifting lemmas to all 2^64 occupancies; exhaustive differential of the accessors",
+        "translator": True,
+    },
+    "C09": {
+        "text": "Kernel-checked theorems on the tables and constants regenerated from the source: knight, king, pawn-capture, pawn-push, rook-ray, bishop-ray tables equal their coordinate definitions for all 64 squares; between and line equal walking from a towards b / the whole line for all 4096 pairs and are empty for non-aligned pairs; distance, adjacent files/ranks and the 17 hand-written constants equal their definitions; pawn_quiets / pawn_attacks / pawn_moves characterised for all 2^64 occupancies. No wrap-around is built into the definitions (step leaves the board).",
+        "note": "Trusted: Lean kernel (axioms propext, Classical.choice, Quot.sound); tools/translate.py; the accessor bodies are hand-modelled and tied to the code by an exhaustive sweep of every public accessor, constant and deterministic generator function.",
+        "technique": "Lean 4: decide +kernel over the whole finite domain of translated tables, lifted to membership lemmas; symbolic proof for the occupancy-dependent pawn helpers; exhaustive differential",
+        "translator": True,
+    },
 }
